@@ -544,6 +544,9 @@ def for_over(self, node, st: State, it):
     spec = self.loop_spec(node)
     ordinal = self.loop_ordinals.get(id(node))
     # concrete list: unroll completely (its length is a constant of the program text)
+    symbolic_view = getattr(it, "enumerate_of", None) is not None or getattr(it, "items_of", None) is not None
+    if symbolic_view and spec is None:
+        raise Unsupported(f"for loop {ordinal} over a symbolic sequence/mapping view without invariant")      # (an empty TupleVal is only the carrier of the view)
     if isinstance(it, (ListVal, TupleVal)) and spec is None:
         states = [(OK, st, None)]
         exits = []
